@@ -39,21 +39,34 @@ func (o *OvsMap) UnmarshalJSON(b []byte) (err error) {
 	var oMap []interface{}
 	o.GoMap = make(map[interface{}]interface{})
 	if err := json.Unmarshal(b, &oMap); err == nil && len(oMap) > 1 {
-		innerSlice := oMap[1].([]interface{})
+		typeError := &json.UnmarshalTypeError{Value: reflect.ValueOf(oMap).String(), Type: reflect.TypeOf(*o)}
+		innerSlice, ok := oMap[1].([]interface{})
+		if !ok {
+			return typeError
+		}
 		for _, val := range innerSlice {
-			f := val.([]interface{})
+			f, ok := val.([]interface{})
+			if !ok || len(f) != 2 {
+				return typeError
+			}
 			var k interface{}
 			switch f[0].(type) {
 			case []interface{}:
 				vSet := f[0].([]interface{})
 				if len(vSet) != 2 || vSet[0] == "map" {
-					return &json.UnmarshalTypeError{Value: reflect.ValueOf(oMap).String(), Type: reflect.TypeOf(*o)}
+					return typeError
 				}
 				goSlice, err := ovsSliceToGoNotation(vSet)
 				if err != nil {
 					return err
 				}
+				// a key has to be an atom
+				if _, ok := goSlice.(UUID); !ok {
+					return typeError
+				}
 				k = goSlice
+			case map[string]interface{}:
+				return typeError
 			default:
 				k = f[0]
 			}
@@ -61,7 +74,7 @@ func (o *OvsMap) UnmarshalJSON(b []byte) (err error) {
 			case []interface{}:
 				vSet := f[1].([]interface{})
 				if len(vSet) != 2 || vSet[0] == "map" {
-					return &json.UnmarshalTypeError{Value: reflect.ValueOf(oMap).String(), Type: reflect.TypeOf(*o)}
+					return typeError
 				}
 				goSlice, err := ovsSliceToGoNotation(vSet)
 				if err != nil {
